@@ -57,6 +57,8 @@ def show(t, depth=0):
         return "closure %s(%s)" % (t[1], ", ".join(show(x, d) for x in t[2]))
     if k == "field":
         return "%s.%s" % (show(t[1], d), t[2])
+    if k == "elemk":
+        return "%s[%s]" % (show(t[1], d), t[2])
     if k == "variant":
         return "(%s as %s)" % (show(t[1], d), t[2])
     if k == "deref":
@@ -92,7 +94,7 @@ def subterms(t):
     if not isinstance(t, tuple) or not t:
         return
     k = t[0]
-    if k in ("field", "variant", "deref", "ref", "tryok", "discr"):
+    if k in ("field", "variant", "deref", "ref", "tryok", "discr", "elemk"):
         yield from subterms(t[1])
     elif k == "call":
         for a in t[2]:
@@ -356,6 +358,9 @@ class Prov:
             return ("field", t, name)
         if k == "index":
             return ("index", t, ("local", e[1], None))
+        if k == "constindex":
+            # `[a, b, c] = arr` / `arr[i]` with a constant index: element i (from the end if e[3])
+            return ("elemk", t, -1 - e[1] if (len(e) > 3 and e[3]) else e[1])
         return (k, t)
 
     def _impossible_downcast(self, x, variant):
